@@ -43,7 +43,7 @@ STUB = ["choice of the running worker thread (baton scheduler, line events in mo
 ASSUMPTIONS = ["the eval'd equation lambdas and numpy/pandas run atomically between two pre-emption points",
                "double evaluation of an equation is allowed; a second VALUE for one (element, time) is not"]
 FAULT_KINDS = ["preemption"]
-PROBES = ["first_equation_after_dependants_were_read", "failed_modelling_call", "scenario_constant_then_scenario_reset", "long_stochastic_run", "edit_landed_inside_a_run", "stochastic_scenario_run_repeatedly", "read_via_memoize", "read_via_call", "read_via_plot", "decimal_dt_race", "edit_after_dependant_read", "initial_value_edit", "preempted_between_check_and_store", "fresh_called_twice_for_one_time",
+PROBES = ["edits_on_a_registered_scenario_model", "first_equation_after_dependants_were_read", "failed_modelling_call", "scenario_constant_then_scenario_reset", "long_stochastic_run", "edit_landed_inside_a_run", "stochastic_scenario_run_repeatedly", "read_via_memoize", "read_via_call", "read_via_plot", "decimal_dt_race", "edit_after_dependant_read", "initial_value_edit", "preempted_between_check_and_store", "fresh_called_twice_for_one_time",
           "run_repeated", "scenario_reset_cache"]
 EXHAUSTIVE = {"quick": False, "thorough": False}
 
@@ -219,7 +219,12 @@ def generate(spec):
     if rng.random() < 0.15:
         # a modelling call that FAILS (an arrayed stock set up with integer initial values) and is shrugged off by the caller
         ops.insert(rng.randint(0, len(ops)), {"op": "failed_setup"})
-    return {"property": PROPERTY, "kind": "edit", "start": start, "stop": stop, "dt": dt, "ops": ops, "late": late,
+    through_bptk = rng.random() < 0.25
+    if through_bptk:
+        # the model is registered with bptk, the edits are made on the registered scenario's own model and "run" is
+        # bptk.run_scenarios (no scenario settings in play: the scenario's constants stay empty)
+        ops = [o for o in ops if o["op"] != "scenario_constant"]
+    return {"property": PROPERTY, "kind": "edit", "start": start, "stop": stop, "dt": dt, "ops": ops, "late": late, "bptk": through_bptk,
             # which reading API the history and the oracle use (they differ in which bookkeeping they touch), and whether
             # every element is observed after every operation or only at the end (observation is itself an operation)
             "via": rng.choice(["evaluate_equation", "memoize", "call", "plot"]), "observe": rng.choice(["each", "each", "end"]),
@@ -409,7 +414,19 @@ def _execute_edit(case):
         defs[case["late"]] = None
         res.probe("first_equation_after_dependants_were_read")
     live = build(defs, start, stop, dt)
-    scen = SimulationScenario(dictionary={}, name="s", model=live, scenario_manager_name="m")
+    b = None
+    if case.get("bptk") and not any(o["op"] == "scenario_constant" for o in case["ops"]):
+        import BPTK_Py
+        from worlds.server_world import configure_bptk_globals
+        configure_bptk_globals()
+        res.probe("edits_on_a_registered_scenario_model")
+        b = BPTK_Py.bptk()
+        b.register_model(live, scenario_manager="smMemo")
+        b.register_scenarios(scenario_manager="smMemo", scenarios={"s": {}})
+        scen = b.get_scenario("smMemo", "s")
+        live = scen.model
+    else:
+        scen = SimulationScenario(dictionary={}, name="s", model=live, scenario_manager_name="m")
     read_since_edit = set()
     pol = make_policy(case.get("sched") or {"kind": "default"})
 
@@ -421,12 +438,17 @@ def _execute_edit(case):
 
     def run(m, eqs):
         with patches.installed(threads="sched"):
-            sim = SdSimulation(model=m, name="edit")
             s = Scheduler(pol, TRACE, log=None)
+            if b is not None and m is live:
+                with s:
+                    out = b.run_scenarios(scenarios=["s"], scenario_managers=["smMemo"], equations=list(eqs), return_format="dict")
+                res.points += s.points
+                return {c: {repr(float(t)): v for t, v in col.items()} for c, col in out["smMemo"]["s"]["equations"].items()}
+            sim = SdSimulation(model=m, name="edit")
             with s:
                 fr = sim.start(output=["frame"], equations=list(eqs))
             res.points += s.points
-        return {c: {repr(t): v for t, v in fr[c].to_dict().items()} for c in fr.columns}
+        return {c: {repr(float(t)): v for t, v in fr[c].to_dict().items()} for c in fr.columns}
 
     via = case.get("via", "evaluate_equation")
     res.probe("read_via_" + via)
